@@ -5,6 +5,11 @@
 pub struct Rng {
     s: [u64; 4],
     pub draws: u64,
+    /// swarm knob carried with the stream (and into forks): when > 0, most identifiers of this
+    /// run come from a pool of that many names, so that name coincidences between clauses
+    /// (the same column in DISTINCT ON and ORDER BY, in the FROM list and the lock's OF list …)
+    /// are common in some runs instead of rare in all
+    pub name_pool: u8,
 }
 
 pub fn splitmix64(x: &mut u64) -> u64 {
@@ -32,7 +37,7 @@ impl Rng {
             splitmix64(&mut x),
             splitmix64(&mut x),
         ];
-        Rng { s, draws: 0 }
+        Rng { s, draws: 0, name_pool: 0 }
     }
     pub fn next(&mut self) -> u64 {
         self.draws += 1;
@@ -79,7 +84,9 @@ impl Rng {
         ws.len() - 1
     }
     pub fn fork(&mut self) -> Rng {
-        Rng::new(self.next())
+        let mut f = Rng::new(self.next());
+        f.name_pool = self.name_pool;
+        f
     }
 }
 
